@@ -76,24 +76,27 @@ def extract_metric_dependencies(metric_obj, graph=None, model_context=None) -> s
                 if "." in ref:
                     deps.add(ref)
                 else:
-                    # Try to resolve as metric first
                     resolved = False
-                    try:
-                        if graph.get_metric(ref):
-                            deps.add(ref)
-                            resolved = True
-                            continue
-                    except KeyError:
-                        pass
 
-                    # If we have model context, check that model first
-                    if not resolved and model_context:
+                    # A metric defined on a model refers to that model's own measures first: a
+                    # graph-level metric that happens to have the same name must not capture the reference
+                    if model_context:
                         try:
                             model = graph.get_model(model_context)
                             if model and model.get_metric(ref):
                                 deps.add(f"{model_context}.{ref}")
                                 resolved = True
                         except (KeyError, AttributeError):
+                            pass
+
+                    # Then a graph-level metric of that name
+                    if not resolved:
+                        try:
+                            if graph.get_metric(ref):
+                                deps.add(ref)
+                                resolved = True
+                                continue
+                        except KeyError:
                             pass
 
                     # Search all models for this measure name (fallback)
